@@ -39,6 +39,27 @@ CLAIMED = {
          'Ok or Err(OperationCancelled) under the documented guards; literal progress arguments satisfy 1 <= step <= total.'),
    note='Undecided: progress values computed in loops (positive/increasing). Closures whose `?` returns into std adaptors are assumed to be propagated by the adaptor. Trusted base: ' + TRUSTED,
    design='5/C23'),
+ 'C28': dict(
+   technique='who-may-call tables over the resolved call graph + MIR guarded-effect dominance on every call into a network sink',
+   text=('Enumerates every function that issues an HTTP request outside the http layer (sinks), closes the set of their callers, and proves each call '
+         'into a sink is dominated by its enabling guard (remote_manifest_fetch, FetchAllowed built only under ocsp_fetch, Some(time-stamp URL), '
+         'decode_identity_assertions, Remote signer setting); non-empty OCSP label lists only under the builder settings; the refusal error carries the URL. '
+         'A new sink, a new caller or an ungated path is reported.'),
+   note='Undecided: nothing essential. Note: core.decode_identity_assertions defaults to true (default-on gate). Trusted base: ' + TRUSTED,
+   design='5/C28'),
+ 'C24': dict(
+   technique='type-resolved global-state inventory + call-graph must-not-reach + field-access rule on the cancellation methods',
+   text=('Decides the absence of shared hidden state: every static/thread_local/lazy item of the workspace is classified (new or re-typed items are reported), '
+         'writers of the legacy thread-local SETTINGS are unreachable from the non-deprecated API, cancellation touches only self.cancel_flag (AtomicBool by value), '
+         'Context is not Clone. Settings-derived cache coherence is decided under C26-D6.'),
+   note='Undecided: equality of concurrent and sequential results (interleaving-dependent values). Send/Sync are enforced by rustc on every build of dependants; no separate witness crate is built. Trusted base: ' + TRUSTED,
+   design='5/C24'),
+ 'C38': dict(
+   technique='call-graph reachability of nondeterminism sources from read entry points against an exact table + global-state inventory',
+   text=('Decides the hidden-input clauses: every clock/RNG/UUID call site in non-test SDK code is in an exact table, and those reachable from the read entry '
+         'points are the inherent ones (validation time, certificate/OCSP/credential validity now, serde defaults); no writable global besides the tabled ones; Store caches are per instance.'),
+   note='Undecided: equality of reports. HashMap iteration order (RandomState) is not tracked. Trusted base: ' + TRUSTED,
+   design='5/C38'),
 }
 
 NA_REASONS = {
